@@ -34,7 +34,8 @@ ASSUMPTIONS = [
     "process layer); the process itself is not spawned here (C23 does that)",
     "readings of the statement fixed in vlib/ref/argv.py: argstr None = not part of the command; "
     "templated argstr is split at its own blanks and the value substituted verbatim; "
-    "MultiInputObj repeats its argstr per element with or without '...'; numbers via str()",
+    "MultiInputObj repeats its argstr per element with or without '...' (tutorial) -- the literal "
+    "reading of the statement (joined when there is no '...') is accepted too; numbers via str()",
     "left open by the statement and skipped (counted as undefined_by_statement): a blank-joined "
     "list inside a template, an empty plain list, a bool field with an empty/templated argstr",
     "a definition-time ValueError 'overlapping positions' (a negative position p is identified "
@@ -104,7 +105,7 @@ def check_case(case):
         return check_helper(case)
     d = scratchdir.new("c22")
     try:
-        spec = case["spec"]
+        spec = G.effective_spec(case)
         rv = G.resolved(spec, case["values"], d / "in")
         try:
             exp = R.argv(spec, rv, case.get("append_args"))
@@ -118,7 +119,7 @@ def check_case(case):
             return [dict(signature=exception_signature(e, f"{stage}-raises"), observed=short(e),
                          expected=exp)]
         got = obs[1]
-        if got == exp:
+        if got == exp or got in R.acceptable(spec, rv, case.get("append_args")):
             return []
         s = R.explain(spec, rv, case.get("append_args"), got, C22_DEFECTS)
         if s:
@@ -135,7 +136,7 @@ def check_case(case):
 
 def describe(case):
     """(nontrivial, labels) computed from the spec alone (no pydra)"""
-    spec, labels = case["spec"], []
+    spec, labels = G.effective_spec(case), []
     try:
         rv = G.resolved(spec, case["values"], "/w")
         R.argv(spec, rv, case.get("append_args"))
@@ -163,6 +164,10 @@ def describe(case):
         labels.append("append_args")
     if isinstance(spec["executable"], list):
         labels.append("executable_list")
+    if case.get("executable_override") is not None:
+        labels.append("executable_given_at_instantiation")
+    if any(R.two_readings(f, rv[f["name"]]) for f in spec["fields"]):
+        labels.append("multi_without_ellipsis_two_readings_accepted")
     return nt, labels
 
 
@@ -175,7 +180,7 @@ def run(sh):
                 nt = False
             sh.run_case(case, nontrivial=nt, labels=labels, raise_unattributed=True)
 
-    sh.given(G.cases(G.WORDS, assignments=3), body, sh.budget(1200, 36000), tag="defs")
+    sh.given(G.cases(G.WORDS, assignments=3), body, sh.budget(1200, 30000), tag="defs")
 
     def helper_body(ps):
         case = dict(helper="position_sort", entries=[[p, f"x{i}"] for i, p in enumerate(ps)])
